@@ -651,19 +651,35 @@ def check_frame_kept(ctx, prog, recv):
             return True
         e = n_.e or {}
         return n_.kind == 'ev' and e.get('k') == 'call' and (e.get('pq') or '').split('::')[-1] == 'append' and e.get('obj') is not None and strip_lv(e['obj']).get('k') == 'var'
+    # nodes that dominate the read (every path from the entry to the read passes them) lie before it in the frame loop: the
+    # search does not walk round the back edge into the next frame
+    def reach_without(d):
+        seen_, stack = set(), [g.entry]
+        while stack:
+            n_ = stack.pop()
+            if n_.id in seen_ or n_ is d:
+                continue
+            seen_.add(n_.id)
+            stack.extend(m_ for m_, _ in n_.succ)
+        return seen_
+    pre = set(n_.id for n_ in g.nodes if n_ is not rd and rd.id not in reach_without(n_))
+
+    def fresh_query(c):
+        """the condition asks the connection for its state again: a call other than the read, with no argument derived from it"""
+        return any(w.get('k') == 'call' and w is not rd.e and not any(x is rd.e or (x.get('k') == 'var' and x.get('id') == holder) for x in walk_expr(w)) for w in walk_expr(c))
     # forward search from the read, stopping at the dispatch; remember the branch conditions taken on the way
     bad = None
     seen = set()
     work = [(m_, ()) for m_, _ in rd.succ]
     while work and bad is None:
         n_, conds = work.pop()
-        if n_.id in seen or is_dispatch(n_):
+        if n_.id in seen or n_.id in pre or is_dispatch(n_):
             continue
         seen.add(n_.id)
-        if n_.kind == 'ret' or (n_.kind == 'ev' and False):
-            from_read = any(any(w is rd.e or (w.get('k') == 'var' and w.get('id') == holder) for w in walk_expr(c)) for c in conds)
-            if conds and not from_read:
-                bad = (n_.line, conds[-1])
+        if n_.kind == 'ret':
+            q_ = [c for c in conds if fresh_query(c)]
+            if q_:
+                bad = (n_.line, q_[-1])
             continue
         for m_, lab in n_.succ:
             work.append((m_, conds + ((n_.e,) if n_.kind == 'br' and n_.e is not None and lab in (True, False) else ())))
